@@ -298,8 +298,12 @@ def case_strategy(draw, tier):
         'check_order': draw(option(ref_names)),
         'check_extra_cols': draw(option(act_names)),
         'sortby': (['k'] if use_key and draw(st.booleans()) else None),
+        # a condition on values (k >= c), or one on position: "the first m
+        # rows" - of the frames as sorted, when a sort is asked for
         'condition': (draw(st.integers(0, 50))
-                      if use_key and draw(st.integers(0, 3)) == 0 else None),
+                      if use_key and draw(st.integers(0, 3)) == 0 else
+                      {'first': draw(st.integers(0, max(1, n)))}
+                      if use_key and draw(st.integers(0, 4)) == 0 else None),
         'precision': p,
         'type_matching': draw(st.sampled_from([None, 'strict', 'medium',
                                                'permissive'])),
@@ -414,8 +418,13 @@ def valid(case):
         # a sort key absent from the actual frame is only specified when
         # it is also reported as a missing (type-checked) column
         return False
-    if o.get('condition') is not None and (
-            not isinstance(o['condition'], int) or 'k' not in ref_names
+    cnd = o.get('condition')
+    if isinstance(cnd, dict):
+        if set(cnd) != {'first'} or not isinstance(cnd['first'], int) or (
+                isinstance(cnd['first'], bool)) or cnd['first'] < 0:
+            return False
+    elif cnd is not None and (
+            not isinstance(cnd, int) or 'k' not in ref_names
             or 'k' not in act_names):
         return False
     for d in (case['ref'], case['act']):
@@ -628,7 +637,10 @@ def model(case, ref_df, act_df):
     if o['sortby'] and not any(k in missing for k in o['sortby']):
         rrows.sort(key=lambda i: rcols['k'][i])
         arows.sort(key=lambda i: acols['k'][i])
-    if o['condition'] is not None:
+    if isinstance(o['condition'], dict):
+        rrows = rrows[:o['condition']['first']]
+        arows = arows[:o['condition']['first']]
+    elif o['condition'] is not None:
         rrows = [i for i in rrows if rcols['k'][i] >= o['condition']]
         arows = [i for i in arows if acols['k'][i] >= o['condition']]
     if len(rrows) != len(arows):
@@ -744,7 +756,10 @@ def run(case, ctx):
               check_order=as_option(o['check_order'], 'ref'),
               check_extra_cols=as_option(o['check_extra_cols'], 'act'),
               sortby=o['sortby'],
-              condition=((lambda df: df['k'] >= o['condition'])
+              condition=((lambda df: __import__('numpy').arange(len(df))
+                          < o['condition']['first'])
+                         if isinstance(o['condition'], dict) else
+                         (lambda df: df['k'] >= o['condition'])
                          if o['condition'] is not None else None),
               precision=o['precision'], type_matching=o['type_matching'])
     if entry != 'check_dataframe':
